@@ -1432,7 +1432,7 @@ impl<Word, Buf: SafeBuf<Word> + AsMut<[Word]>> BoundedWriteWords<Word>
 {
     #[inline(always)]
     fn space_left(&self) -> usize {
-        self.0.buf.as_ref().len()
+        self.0.pos
     }
 }
 
